@@ -434,6 +434,97 @@ def rule_fold_selection(rep, repo):
              want_r), loc=loc)
 
 
+def rule_populate(rep, repo):
+  """R7: populate_bias_quantizer_from_accumulator gives a folded layer that
+  was built without a bias quantizer the accumulator type as bias quantizer;
+  afterwards the layer's own inference path must quantize the folded bias
+  with it (composition of the interpreted utility with the interpreted
+  call()), and get_quantizers() must report it."""
+  bm = repo.module("qkeras.bn_folding_utils")
+  pf = bm.functions.get("populate_bias_quantizer_from_accumulator")
+  if pf is None:
+    raise AnalysisError("anchor-missing populate_bias_quantizer_from_"
+                        "accumulator")
+  unit = "%s::populate_bias_quantizer_from_accumulator" % bm.relpath
+  rep.unit(unit)
+  loc = bm.loc(pf)
+  for qual, spec in sorted(CLASSES.items()):
+    ci = repo.classes[qual]
+    owner, fn = ci.find_method("call")
+    o = make(ci, spec, "ema_stats_folding", True, True, True)
+    o.attrs["bias_quantizer"] = None
+    o.attrs["bias_quantizer_internal"] = None
+    o.attrs["name"] = "folded"
+    o.attrs["quantizers"] = [o.attrs[spec["qattr"] + "_internal"], None]
+    newq = qm("bias")
+    tq = Mock("qtools accumulator type", {
+        "int_bits": 3,
+        "convert_to_qkeras_quantizer": lambda pe, a, k: newq})
+    lmap = {"layer_data_type_map": {o: Mock("entry",
+                                            {"bias_quantizer": tq})}}
+    qg = Mock("qgraph", {
+        "CreateGraph": lambda pe, a, k: (Mock("graph", {}), []),
+        "GraphPropagateActivationsToEdges": lambda pe, a, k: None})
+    gen = Mock("gen_map", {
+        "generate_layer_data_type_map": lambda pe, a, k: lmap})
+    model = Mock("model", {"layers": [o]})
+    pe = PE(repo, module_overrides={bm.name: {"qgraph": qg,
+                                              "gen_map": gen}})
+    pe.opaque_ext = True
+    pe.fork = Fork([])
+    pe.ext_overrides = {"*.is_tensor": lambda pe, a, k: False}
+    cfg = ci.name
+    try:
+      pe.call(pe.lookup_global("populate_bias_quantizer_from_accumulator",
+                               bm), [model, None], {})
+      out = pe.call_func(Func(fn, owner.module, [], "call", o, owner),
+                         [Tensor(("sym", "inputs"), (2, 8, 8, 4))],
+                         {"training": False})
+    except PyRaise as e:
+      rep.fail("R7", unit, "populate-or-call-raises", "%s: raises %s" %
+               (cfg, e), loc=loc, instance=cfg)
+      continue
+    adds = [a for a in find_apps(out.term, "K.bias_add")]
+    quantized_bias = [a for a in adds if a[3][1][0] == "app" and
+                      a[3][1][1] == "Q_bias"]
+    rep.check(len(adds) == 1 and len(quantized_bias) == 1, "R7", unit,
+              "populated-bias-quantizer-not-applied",
+              "%s: after the utility has given the layer its accumulator "
+              "type as bias quantizer, call() adds %s" % (
+                  cfg, "the unquantized folded bias" if adds else
+                  "no bias"), loc=loc, instance=cfg)
+    gq_owner, gq = ci.find_method("get_quantizers")
+    rep.check(o.attrs.get("bias_quantizer_internal") is newq and
+              isinstance(o.attrs.get("quantizers"), list) and
+              o.attrs["quantizers"][-1] is newq, "R7", unit,
+              "populated-bias-quantizer-not-reported",
+              "%s: bias_quantizer_internal / quantizers do not hold the "
+              "populated quantizer" % cfg, loc=loc, instance=cfg)
+    # a layer that already has a bias quantizer keeps it
+    o2 = make(ci, spec, "ema_stats_folding", True, True, True)
+    o2.attrs["name"] = "folded2"
+    keep = o2.attrs["bias_quantizer_internal"]
+    lmap2 = {"layer_data_type_map": {o2: Mock("entry",
+                                              {"bias_quantizer": tq})}}
+    gen2 = Mock("gen_map", {
+        "generate_layer_data_type_map": lambda pe, a, k: lmap2})
+    pe2 = PE(repo, module_overrides={bm.name: {"qgraph": qg,
+                                               "gen_map": gen2}})
+    pe2.opaque_ext = True
+    pe2.ext_overrides = {"*.is_tensor": lambda pe, a, k: False}
+    try:
+      pe2.call(pe2.lookup_global("populate_bias_quantizer_from_accumulator",
+                                 bm), [Mock("model", {"layers": [o2]}),
+                                       None], {})
+      rep.check(o2.attrs.get("bias_quantizer_internal") is keep, "R7", unit,
+                "user-bias-quantizer-overwritten",
+                "%s: a bias quantizer given by the user was replaced" % cfg,
+                loc=loc, instance=cfg)
+    except PyRaise as e:
+      rep.fail("R7", unit, "populate-raises", "%s: raises %s" % (cfg, e),
+               loc=loc, instance=cfg)
+
+
 def run(rep, repo, tier):
   rep.trusted.append("Keras backend convolutions are uninterpreted; "
                      "smart_cond with a python False takes the second arm")
@@ -445,6 +536,8 @@ def run(rep, repo, tier):
   rule_lists(rep, repo)
   rule_fold_selection(rep, repo)
   rep.require_instances("R6", 2)
+  rule_populate(rep, repo)
+  rep.require_instances("R7", 6)
   rep.require_instances("R1", 60)
   rep.require_instances("R2", 150)
   rep.require_instances("R4", 3)
